@@ -193,7 +193,7 @@ func daysSince2000(y, m, d int) int64 {
 
 type absFields struct {
 	yy, mo, dd, hh, mi, ss, t, nn int
-	p                            byte
+	p                             byte
 }
 
 func readFields(s string) (f absFields, ok bool) {
@@ -243,6 +243,7 @@ const durMax = 100 * 8760 * 36000 // 100 "years" of 8760 h, in tenths
 type c20Time struct {
 	r        *Run
 	caseLeft map[string]int // model-case budget per op (direct tests are unbudgeted)
+	advLeft  map[string]int // advisory-case budget per op (inputs outside the property's quantifier)
 	// every op line executed, with the implementation's observation, for the
 	// extracted-model comparison (c20_extract.go).  strict = the input lies in
 	// the property's quantifier (or is pinned by the repository's own tests):
@@ -258,10 +259,17 @@ func (c *c20Time) emit(line, obs string, strict, force bool) {
 	c.ops = append(c.ops, line)
 	c.obs = append(c.obs, obs)
 	c.strict = append(c.strict, strict)
+	op := strings.Fields(line)[0]
 	if !strict {
+		// outside the property's quantifier (malformed strings, instants / periods out of range): an ADVISORY model case
+		// (a disagreement is a note in the evidence, not a violation) -- this is what ties C20_time_parse_total's acceptance
+		// shape and C20_time_domain_edge to the implementation without alarming on stricter validation
+		if c.advLeft[op] > 0 {
+			c.advLeft[op]--
+			c.r.Advisory(line+" -> "+obs, c20Term(line, obs))
+		}
 		return
 	}
-	op := strings.Fields(line)[0]
 	if !force {
 		if c.caseLeft[op] <= 0 {
 			return
@@ -427,14 +435,17 @@ func mutateTimeStr(rng *Rng, s string) string {
 
 func corrC20Time(r *Run) *c20Time {
 	r.Import("Model.SmppTime")
-	c := &c20Time{r: r, caseLeft: map[string]int{}}
+	c := &c20Time{r: r, caseLeft: map[string]int{}, advLeft: map[string]int{}}
+	for _, op := range []string{"timeparse", "timefmt", "durparse", "durfmt"} {
+		c.advLeft[op] = r.N(200, 2000)
+	}
 	rng := r.Rng
 	// kernel-case budgets (each op line is ALSO a direct test; in the thorough tier every line additionally
 	// goes through the extracted model, the kernel cases being the vm_compute slice all three must agree on)
-	c.caseLeft["timeparse"] = r.N(5000, 40000)
-	c.caseLeft["timefmt"] = r.N(5000, 45000)
-	c.caseLeft["durfmt"] = r.N(1500, 12000)
-	c.caseLeft["durparse"] = r.N(500, 5000)
+	c.caseLeft["timeparse"] = r.N(2600, 30000)
+	c.caseLeft["timefmt"] = r.N(2600, 34000)
+	c.caseLeft["durfmt"] = r.N(1000, 12000)
+	c.caseLeft["durparse"] = r.N(400, 5000)
 
 	// ---- 0. corpus: the repository's own vectors and the known finding first
 	for _, s := range []string{"", "000101000000000+", "111019080000704-", "201020182347832+", "991231235959948+",
@@ -640,7 +651,135 @@ func corrC20Time(r *Run) *c20Time {
 			rng.Intn(61), rng.Intn(61), rng.Intn(10), rng.Pick([]int{0, 0, 0, 1, 48}))
 		c.durParse(s, "field-wise", true)
 	}
+	c.receiverHistories(prod[0].s)
 	return c
+}
+
+// ---------------------------------------------------------------- receivers that already hold a value
+// From is a method on a pointer.  Every op above starts from a fresh variable; here one variable is used for a
+// history of calls (and is pre-set without From), and what it holds after the LAST call must be what a fresh
+// variable would hold: the value of a valid string, the zero value after "" (the repository's tests pin "" as the
+// null time / period).  After a rejected string only the error class is required (the variable's content is an
+// advisory case).
+func (c *c20Time) receiverHistories(anyValid string) {
+	r, rng := c.r, c.r.Rng
+	randValid := func() string {
+		yy, mo := rng.Intn(100), 1+rng.Intn(12)
+		p := byte('+')
+		if rng.Bool() {
+			p = '-'
+		}
+		return absString(yy, mo, 1+rng.Intn(daysIn(2000+yy, mo)), rng.Intn(24), rng.Intn(60), rng.Intn(60), rng.Intn(10), 1+rng.Intn(48), p)
+	}
+	randRel := func() string {
+		return fmt.Sprintf("%02d%02d%02d%02d%02d%02d%d00R", rng.Intn(100), rng.Intn(12), rng.Intn(30), rng.Intn(24), rng.Intn(60), rng.Intn(60), rng.Intn(10))
+	}
+	rejected := []string{"000101000000000", "020610233429000R", "0206102334290000+", "x", "991231235959948*"}
+	n := r.N(300, 2000)
+	for i := 0; i < n; i++ {
+		// ---- pdu.Time
+		var tm pdu.Time
+		var hist []string
+		switch i % 4 {
+		case 0: // pre-set without From
+			tm = pdu.Time{Time: timeAt(int64(rng.U64()%uint64(centuryTenths)), rng.Intn(97)-48)}
+			hist = append(hist, "preset")
+		default:
+			for k := 1 + rng.Intn(3); k > 0; k-- {
+				s0 := randValid()
+				if rng.Intn(5) == 0 {
+					s0 = rejected[rng.Intn(len(rejected))]
+				}
+				_ = tm.From(s0)
+				hist = append(hist, s0)
+			}
+		}
+		_, off0 := tm.Zone()
+		t0, q0, exact0 := tenthsOf(tm.Time), off0/900, tm.Nanosecond()%1e8 == 0 && off0%900 == 0
+		var last string
+		switch rng.Intn(4) {
+		case 0:
+			last = ""
+		case 1:
+			last = rejected[rng.Intn(len(rejected))]
+		default:
+			last = randValid()
+		}
+		err := tm.From(last)
+		_, off := tm.Zone()
+		t1, q1 := tenthsOf(tm.Time), off/900
+		fresh := opTimeParse(last)
+		show := fmt.Sprintf("timefrom history=%q then %s (%q)", hist, hexStr(last), last)
+		r.Count(show, true, "timefrom/reused receiver")
+		valid, _, _ := validAbs(last)
+		switch {
+		case (err == nil) != (fresh.class == "ok"):
+			r.Fail("time/receiver/error-class", "Time.From on a variable that already holds a value returns another error class than on a fresh variable", show,
+				fmt.Sprint(err), fresh.class)
+		case valid && (t1 != fresh.t || q1 != fresh.q || tm.String() != fresh.x.String()):
+			r.Fail("time/receiver/valid-string", "Time.From of a valid string into a variable that already holds a value does not store the value of the string", show,
+				fmt.Sprintf("instant=%d offset=%d %q", t1, q1, tm.String()), fmt.Sprintf("instant=%d offset=%d %q", fresh.t, fresh.q, fresh.x.String()))
+		case last == "" && (!tm.IsZero() || tm.String() != ""):
+			r.Fail("time/receiver/empty-string", "Time.From(\"\") into a variable that already holds a value does not store the null time", show,
+				fmt.Sprintf("%q (%s)", tm.String(), tm.Time.Format(time.RFC3339Nano)), "\"\" (zero time)")
+		}
+		if exact0 {
+			term := fmt.Sprintf("time_from_is %s %s %s %s %s %s", coqZ(t0), coqZ(int64(q0)), coqHex([]byte(last)), coqBool(err == nil), coqZ(t1), coqZ(int64(q1)))
+			if valid || last == "" {
+				r.Case(show, term)
+			} else {
+				r.Advisory(show, term)
+			}
+		}
+		// ---- pdu.Duration
+		var du pdu.Duration
+		hist = nil
+		switch i % 4 {
+		case 1:
+			du = pdu.Duration{Duration: time.Duration(rng.U64()%uint64(durMax)) * 1e8}
+			hist = append(hist, "preset")
+		default:
+			for k := 1 + rng.Intn(3); k > 0; k-- {
+				s0 := randRel()
+				_ = du.From(s0)
+				hist = append(hist, s0)
+			}
+		}
+		d0, dexact := floorDiv(int64(du.Duration), 1e8), floorMod(int64(du.Duration), 1e8) == 0
+		switch rng.Intn(4) {
+		case 0:
+			last = ""
+		case 1:
+			last = rejected[rng.Intn(len(rejected))]
+		default:
+			last = randRel()
+		}
+		err = du.From(last)
+		d1 := floorDiv(int64(du.Duration), 1e8)
+		cl, fd, _ := opDurParse(last)
+		show = fmt.Sprintf("durfrom history=%q then %s (%q)", hist, hexStr(last), last)
+		r.Count(show, true, "durfrom/reused receiver")
+		switch {
+		case (err == nil) != (cl == "ok"):
+			r.Fail("duration/receiver/error-class", "Duration.From on a variable that already holds a value returns another error class than on a fresh variable", show,
+				fmt.Sprint(err), cl)
+		case validRel(last) && d1 != fd:
+			r.Fail("duration/receiver/valid-string", "Duration.From of a valid string into a variable that already holds a value does not store the value of the string", show,
+				fmt.Sprintf("%d tenths (%s)", d1, du.Duration), fmt.Sprintf("%d tenths", fd))
+		case last == "" && (du.Duration != 0 || du.String() != ""):
+			r.Fail("duration/receiver/empty-string", "Duration.From(\"\") into a variable that already holds a value does not store the null period", show,
+				fmt.Sprintf("%s %q", du.Duration, du.String()), "0 \"\"")
+		}
+		if dexact {
+			term := fmt.Sprintf("dur_from_is %s %s %s %s", coqZ(d0), coqHex([]byte(last)), coqBool(err == nil), coqZ(d1))
+			if validRel(last) || last == "" {
+				r.Case(show, term)
+			} else {
+				r.Advisory(show, term)
+			}
+		}
+	}
+	_ = anyValid
 }
 
 // replay: re-run one recorded op line ("timeparse <hex> ...", "timefmt <tenths> <q> ...", "durfmt <tenths> ...",
